@@ -69,12 +69,12 @@ theorem reimposeBlocks_init (ctx : Ctx R) (depth : R) (ps : List Req) (bs : List
 
 /-- **C03** at a point not contained in any feature the world returns the background state, for every request -/
 theorem C03_background (w : World R) (pt : P3 R) (depth : R) (ps : List Req)
-    (hout : ∀ f ∈ w.features, f.covers w.ctx ⟨pt, w.ctx.coord.toNatural pt, depth, w.ctx.gravity⟩ = false) (g : G) :
+    (hout : ∀ f ∈ w.features, f.covers w.ctx (w.query pt depth) = false) (g : G) :
     w.props3 pt depth ps g = (match Spec.background w.ctx depth ps with
       | some out => .ok (out, g)
       | none => .error .unknownProperty) := by
   rw [C02_filter_covering]
-  have hnil : w.features.filter (fun f => f.covers w.ctx ⟨pt, w.ctx.coord.toNatural pt, depth, w.ctx.gravity⟩) = [] := by
+  have hnil : w.features.filter (fun f => f.covers w.ctx (w.query pt depth)) = [] := by
     rw [List.filter_eq_nil_iff]; intro f hf; simp [hout f hf]
   rw [hnil, World.props3_blocks]
   unfold World.props3Blocks featuresBlocks Spec.background
@@ -134,7 +134,7 @@ theorem C03_forced_surface (w : World R) (pt : P3 R) (depth : R) (ps : List Req)
         split at hb
         · simp only [Except.ok.injEq, Prod.mk.injEq] at hb; obtain ⟨rfl, _⟩ := hb
           rw [hb0, hb0T]
-        · cases hfb : featuresBlocks w.features w.ctx ⟨pt, w.ctx.coord.toNatural pt, depth, w.ctx.gravity⟩ ps bs0 g with
+        · cases hfb : featuresBlocks w.features w.ctx (w.query pt depth) ps bs0 g with
           | error e => simp [hfb] at hb
           | ok r =>
             obtain ⟨bs1, g2⟩ := r
